@@ -6,7 +6,7 @@ KANI_UNITS = []
 A_DLL = "DualLinkedList contract (abstract view Seq<(E,Duration,usize)>; add = stable insert behind all entries with time <= t, pop_min = remove front, cancel = remove first entry with the id, front_time): assumed — raw-pointer code outside Verus"
 A_DUR = "std::time::Duration modelled by dn(d) = total nanoseconds <= u64::MAX*1e9+999_999_999; ==, <, <=, >, >=, +=, as_nanos follow dn; machine arithmetic is NOT idealised: every +, -=, cast and `t0 += t` is proved free of overflow"
 A_BOUNDS = "resource preconditions of the proved contracts: len < usize::MAX, event_id < usize::MAX (ids never wrap), itr < usize::MAX, time + 2*bucket_width <= Duration::MAX, n*t <= u128::MAX, bucket count >= 1, bucket width >= 1ns"
-A_NEW = "CQueue::new postcondition (well-formed, empty, time 0) assumed: iterator adaptors outside the subset"
+A_NEW = "CQueue::new is verified (well-formed, empty, time 0); assumed inside it: the iterator chain that builds the bucket vector yields n empty lists (rewrite R17 -> make_buckets), Duration::ZERO is zero nanoseconds (R17 -> dur_zero)"
 A_HANDLER = "event handlers / at_sim_end (user code, reached through R3) keep Runtime::inv, do not move clock or counters and are entered once per call: assumed contract on user code"
 A_CLOCK = "the global SIMTIME atomics are mirrored by a ghost field written right after every SimTime::set_now (R4); Runtime::sim_time/SimTime::now return the mirror: assumed here, discharged for set_now/now by Kani unit simtime"
 A_BUILD = "Builder::build (mutex, RNG install) is not extracted: its postcondition (inv, clock = start_time, empty event set) is assumed; FutureEventSet::new_with, which it calls, is proved"
